@@ -58,6 +58,9 @@ func init() {
 		// engine.processSteps: SaveRaftState ; onSnapshotSaved (removes the flag file of a received snapshot)
 		NFact("engine_pos_save_raft_state", func() *big.Int { p := root(); return callRank(p, p.Func("engine", "processSteps"), "SaveRaftState", "SaveRaftState", "onSnapshotSaved") }),
 		NFact("engine_pos_on_snapshot_saved", func() *big.Int { p := root(); return callRank(p, p.Func("engine", "processSteps"), "onSnapshotSaved", "SaveRaftState", "onSnapshotSaved") }),
+		// node.recover (on-disk state machines): sm.Sync ; snapshotter.Shrink
+		NFact("recover_pos_sync", func() *big.Int { p := root(); return callRank(p, p.Func("node", "recover"), "Sync", "Sync", "Shrink") }),
+		NFact("recover_pos_shrink", func() *big.Int { p := root(); return callRank(p, p.Func("node", "recover"), "Shrink", "Sync", "Shrink") }),
 		// SSEnv.FinalizeSnapshot: createFlagFile ; finalDirExists ; renameToFinalDir
 		NFact("finalize_pos_flag", func() *big.Int { p := srv(); return callRank(p, p.Func("SSEnv", "FinalizeSnapshot"), "createFlagFile", "createFlagFile", "finalDirExists", "renameToFinalDir") }),
 		NFact("finalize_pos_check", func() *big.Int { p := srv(); return callRank(p, p.Func("SSEnv", "FinalizeSnapshot"), "finalDirExists", "createFlagFile", "finalDirExists", "renameToFinalDir") }),
